@@ -7,11 +7,13 @@ use slac::stdlib::regex as sre;
 use slac::Value as V;
 
 const FNS: [&str; 4] = ["re_is_match", "re_find", "re_capture", "re_replace"];
-const HAYS: &[&str] = &["", "abc", "aaa", "a1b22c333", "Hello World", "äbc", "foo@bar.com", "2024-01-05", "aXbXc", "x", "a.b", "a+b+c", "ab ab", "ßΣ"];
+const HAYS: &[&str] = &["", "abc", "aaa", "a1b22c333", "Hello World", "äbc", "foo@bar.com", "2024-01-05", "aXbXc", "x", "a.b", "a+b+c", "ab ab", "ßΣ",
+    "C:\\Qt\\bin", "\\server\\Queue a\\Eb", "x\\d\\b", "total 12USD", "testing tested", "key=value", "10-20 30-40"];
 const PATS: &[&str] = &["a", "a*", "(a)(b)?", "[0-9]+", "\\d+", "(", "a{1000000}", "^", "$", "b|c", "(?P<y>\\d{4})-(\\d\\d)", "\\b", ".", "", "((((a))))", "[", "\\",
-    "(?i)HELLO", "ä", "a|", "(x)?", "\\w+", "[a-c]{2}", "b*?", "(a)|(b)", "\\.", "X", "(?:a)(b)", "*"];
+    "(?i)HELLO", "ä", "a|", "(x)?", "\\w+", "[a-c]{2}", "b*?", "(a)|(b)", "\\.", "X", "(?:a)(b)", "*",
+    "\\B(USD|EUR)", "\\B(ing|ed)", "\\b=(\\w+)", "\\b-(\\d+)", "\\B(b)", "\\b(\\w)"];
 const REPS: &[&str] = &["", "x", "$1", "$0$0", "${y}", "$", "-", "yy", "$$"];
-const LITS: &[&str] = &["", "a", "ab", "a.b", "a+b", "X", ".", "(", "[", "\\", "ä", "b c", "$", "^", "aa", "*"];
+const LITS: &[&str] = &["", "a", "ab", "a.b", "a+b", "X", ".", "(", "[", "\\", "ä", "b c", "$", "^", "aa", "*", "C:\\Qt", "\\Q", "\\Queue", "a\\E", "\\d", "\\b", "\\Qt\\b"];
 
 fn s(x: &str) -> V { V::String(x.to_string()) }
 fn pk<'a>(r: &mut Rng, xs: &[&'a str]) -> &'a str { xs[r.usize(xs.len())] }
